@@ -500,7 +500,19 @@ func (d *cfgDynamic) withValue(err *error, opts *options, fn func(value)) {
 
 func (d *cfgDynamic) getValue(opts *options) (value, error) {
 	return opts.parsed.cachedValue(d.id, func() (value, error) {
-		return d.dyn.getValue(&d.cfgPrimitive, opts)
+		v, err := d.dyn.getValue(&d.cfgPrimitive, opts)
+		// a reference to a reference: follow the chain here, so that its end
+		// is what gets cached for d. Otherwise every further look at d within
+		// the same field (its type, its text) resolves the first hop again
+		// and finds its own earlier registration in the cycle guard.
+		for err == nil {
+			next, ok := v.(*cfgDynamic)
+			if !ok {
+				break
+			}
+			v, err = next.getValue(opts)
+		}
+		return v, err
 	})
 }
 
